@@ -688,6 +688,7 @@ func modeToBytes(root *rng.R, n int) {
 		o.FirstPopulated = r.Chance(3, 4)
 		o.AllowEmptyVals = r.Chance(1, 6)
 		o.PopulateProb = []int{30, 60, 90}[r.Intn(3)]
+		o.LongLists = true
 		g := gen.New(r, o)
 		runToBytes(id, g.Message())
 		id++
@@ -739,6 +740,7 @@ func modeRoundTrip(root *rng.R, n int) {
 		o.FirstPopulated = true
 		o.PopulateProb = []int{30, 60, 90}[r.Intn(3)]
 		o.MaxDepth = r.Range(2, 5)
+		o.LongLists = true
 		g := gen.New(r, o)
 		runRoundTrip(i, g.Message())
 	}
